@@ -69,6 +69,9 @@ type FuncContract struct {
 	Trusted  string // reason why extern
 	NoPanic  bool
 	Ghosts   []*Clause // ghost statements anchored in the body
+	GhostSets    [][3]string // anchor (entry|return), ghost variable, expression
+	SinceGhost   string      // modifies-since G : heaps  -- objects with reference >= old(G) may be written in these heaps
+	SinceHeaps   []string
 	ParamNames   []string    // explicit parameter names (function-value and interface contracts whose signature has none)
 	Implements   []string    // names of contracts (same package) whose clauses this function must also satisfy
 	ReplayInputs [][2]string // name, spec expression (evaluated at entry)
@@ -111,7 +114,7 @@ type EffectDecl struct {
 	File   string
 }
 
-var keywordRe = regexp.MustCompile(`^(params|implements|audit|nonglobal|type|exec|replay-input|replay-setup|pred|fun|axiom|func|extern|requires|ensures|modifies|loop|behavior|props|partial|pure|inline|ghost|assert-at|assume-at|effects|trusted|nopanic|panics-when|ensures-on-panic|package|const|lemma)\b`)
+var keywordRe = regexp.MustCompile(`^(ghost-set|modifies-since|params|implements|audit|nonglobal|type|exec|replay-input|replay-setup|pred|fun|axiom|func|extern|requires|ensures|modifies|loop|behavior|props|partial|pure|inline|ghost|assert-at|assume-at|effects|trusted|nopanic|panics-when|ensures-on-panic|package|const|lemma)\b`)
 
 type rawLine struct {
 	text string
@@ -265,7 +268,7 @@ func (cs *Contracts) loadFile(path string) error {
 				return fail(fmt.Errorf("bad ghost declaration"))
 			}
 		case "func", "extern":
-			f := strings.Fields(rest)
+			f := fieldsBalanced(rest)
 			if len(f) == 0 {
 				return fail(fmt.Errorf("func needs a name"))
 			}
@@ -314,6 +317,24 @@ func (cs *Contracts) loadFile(path string) error {
 			cur.Inline = true
 		case "nopanic":
 			cur.NoPanic = true
+		case "ghost-set":
+			// ghost-set entry|return : name = expr
+			parts := strings.SplitN(rest, ":", 2)
+			if cur == nil || len(parts) != 2 {
+				return fail(fmt.Errorf("ghost-set needs 'anchor : name = expr'"))
+			}
+			as := strings.SplitN(parts[1], "=", 2)
+			if len(as) != 2 {
+				return fail(fmt.Errorf("ghost-set needs 'name = expr'"))
+			}
+			cur.GhostSets = append(cur.GhostSets, [3]string{strings.TrimSpace(parts[0]), strings.TrimSpace(as[0]), strings.TrimSpace(as[1])})
+		case "modifies-since":
+			parts := strings.SplitN(rest, ":", 2)
+			if cur == nil || len(parts) != 2 {
+				return fail(fmt.Errorf("modifies-since needs 'ghost : heaps'"))
+			}
+			cur.SinceGhost = strings.TrimSpace(parts[0])
+			cur.SinceHeaps = append(cur.SinceHeaps, splitList(parts[1])...)
 		case "params":
 			if cur == nil {
 				return fail(fmt.Errorf("params outside func"))
@@ -501,4 +522,32 @@ func parseSpecFun(kw, rest string) (*SpecFun, error) {
 		sf.Body = e
 	}
 	return sf, nil
+}
+
+// fieldsBalanced splits on spaces outside square brackets (instantiated generic names contain spaces).
+func fieldsBalanced(s string) []string {
+	var out []string
+	depth := 0
+	cur := ""
+	for _, r := range s {
+		switch {
+		case r == '[':
+			depth++
+			cur += string(r)
+		case r == ']':
+			depth--
+			cur += string(r)
+		case (r == ' ' || r == '\t') && depth == 0:
+			if cur != "" {
+				out = append(out, cur)
+				cur = ""
+			}
+		default:
+			cur += string(r)
+		}
+	}
+	if cur != "" {
+		out = append(out, cur)
+	}
+	return out
 }
